@@ -1,7 +1,8 @@
 (* Command dispatcher for the extracted model: one input line (already tokenised by the OCaml
    driver) -> one output line.  All canonical printing is done here, in Coq, so that the OCaml
    side is a trivial read/print loop. *)
-From VF Require Import Base.Prelude Model.Reader.
+From VF Require Import Base.Prelude Model.Reader Model.InfoModelDefs.
+From VF Require Gen.InfoModel.
 
 Inductive tok := TBytes (b : bytes) | TInt (z : Z) | TSym (s : bytes).
 
@@ -46,6 +47,24 @@ Definition cmd_reader (args : list tok) : bytes :=
   | _ => s2l "BADARGS"
   end.
 
+(* ---------- information model (C20) ---------- *)
+Definition show_entry (x : (Z * Z) * entry) : bytes :=
+  let '((pen, id), (fid, name, ty)) := x in
+  show_Z pen ++ s2l ":" ++ show_Z id ++ s2l ":" ++ show_Z fid ++ s2l ":" ++ s2l name ++ s2l ":" ++ show_Z ty.
+Definition show_model (m : model) : bytes := intercalate (s2l ";") (map show_entry m).
+
+Definition cmd_infomodel (args : list tok) : bytes :=
+  match args with
+  | t :: _ =>
+    if sym_is t "builtin" then
+      show_model (builtin_model Gen.InfoModel.type_consts Gen.InfoModel.field_types Gen.InfoModel.builtin)
+    else if sym_is t "shipped" then
+      show_model (load_ext Gen.InfoModel.field_types Gen.InfoModel.shipped)
+    else s2l "BADARGS"
+  | _ => s2l "BADARGS"
+  end.
+
 Definition dispatch (cmd : bytes) (args : list tok) : bytes :=
   if list_eqb cmd (s2l "reader") then cmd_reader args
+  else if list_eqb cmd (s2l "infomodel") then cmd_infomodel args
   else s2l "UNKNOWN-COMMAND".
